@@ -200,6 +200,8 @@ var (
 	reSimpleMap = regexp.MustCompile(`\{([a-zA-Z])([a-zA-Z])\}`)
 	reSimpleLst = regexp.MustCompile(`\[([a-zA-Z])\]`)
 	reStructNam = regexp.MustCompile(`\)<[A-Za-z][0-9A-Za-z_]*`)
+	// a struct name followed by the name of the first member
+	reNameAndNext = regexp.MustCompile(`\)<([A-Za-z][0-9A-Za-z_]*),([A-Za-z][0-9A-Za-z_]*)`)
 )
 
 // genInvalid builds a string which is outside the grammar by construction:
@@ -216,7 +218,8 @@ func genInvalid(t *rapid.T) Case {
 		// every rule has something to break in here
 		s = "(" + s + "{sI}[d])<Wrap,a,b,c>"
 	}
-	class := rapid.SampledFrom([]string{"names-1", "names+1", "map-1", "map+1", "list+1", "list-0", "unbalanced", "two-types", "no-struct-name", "digit-field"}).Draw(t, "invalid")
+	class := rapid.SampledFrom([]string{"names-1", "names+1", "map-1", "map+1", "list+1", "list-0", "unbalanced", "two-types", "no-struct-name", "digit-field",
+		"comma-trailing", "comma-leading", "comma-doubled", "garbage-name", "garbage-name"}).Draw(t, "invalid")
 	first := func(re *regexp.Regexp, repl string) bool {
 		loc := re.FindStringSubmatchIndex(s)
 		if loc == nil {
@@ -258,6 +261,38 @@ func genInvalid(t *rapid.T) Case {
 		ok = first(reStructNam, ")<")
 	case "digit-field":
 		ok = first(reLastName, ",1x>")
+	case "comma-trailing", "comma-leading", "comma-doubled":
+		// one comma too many in a definition: before the closing bracket, after
+		// the opening one, or beside another one (any definition of the string)
+		var at []int
+		for j := 0; j < len(s); j++ {
+			switch {
+			case class == "comma-trailing" && s[j] == '>' && j > 0 && s[j-1] != '<' && s[j-1] != '>':
+				at = append(at, j)
+			case class == "comma-leading" && s[j] == '<' && j > 0 && s[j-1] == ')':
+				at = append(at, j+1)
+			case class == "comma-doubled" && s[j] == ',':
+				at = append(at, j)
+			}
+		}
+		if len(at) > 0 {
+			j := at[rapid.IntRange(0, len(at)-1).Draw(t, "commaat")]
+			s, ok = s[:j]+","+s[j:], true
+		}
+	case "garbage-name":
+		// the name of a struct replaced by bytes which cannot start a name, as
+		// long as the name which follows, or of any short length
+		if loc := reNameAndNext.FindStringSubmatchIndex(s); loc != nil {
+			n := loc[5] - loc[4]
+			if rapid.Bool().Draw(t, "otherlen") {
+				n = rapid.IntRange(1, 4).Draw(t, "garbagelen")
+			}
+			g := ""
+			for len(g) < n {
+				g += rapid.SampledFrom([]string{"%", "$", "_", "0", "9", "\x00", ".", "-", "é", "<", ">", ",", "#"}).Draw(t, "garbage")
+			}
+			s, ok = s[:loc[2]]+g[:n]+s[loc[3]:], true
+		}
 	}
 	if !ok {
 		class = "two-types"
@@ -484,7 +519,20 @@ func checkArbitrary(c Case) error {
 	}
 	labels := []string{"kind=arbitrary", "accepted", "edit=" + c.Edit}
 	if refErr != nil {
-		labels = append(labels, "accepted-outside-reference-grammar")
+		// "any other input is rejected": the one thing the parser is known to
+		// tolerate is white space between tokens (its scanner skips it), so an
+		// accepted input outside the grammar is a signature of the grammar with
+		// white space in it, and what is printed is that signature
+		stripped := strings.Map(func(r rune) rune {
+			if strings.ContainsRune(" \t\r\n\v\f", r) {
+				return -1
+			}
+			return r
+		}, c.Sig)
+		if _, e := ref.ParseSig(stripped); e != nil || stripped != printed {
+			return vt.Violationf("C09:outside-grammar-accepted", "Parse(%q) accepted an input outside the grammar and printed it as %q (the reference parser says: %v)", c.Sig, printed, refErr)
+		}
+		labels = append(labels, "accepted-outside-reference-grammar(white-space)")
 	}
 	vt.Case(true, "acc:"+c.Sig, labels...)
 	vt.Sample("arbitrary-accepted", c)
